@@ -181,11 +181,19 @@ class GlsaDirSet(GenericEquality):
             base = base[:-1]
         base = cpv.VersionedCPV(f"cat/pkg-{base}")
 
+        def finalize(*restrictions):
+            # every kind of range honours the slot attribute and the negation
+            if slot:
+                restrictions += (atom_restricts.SlotDep(slot),)
+            return packages.AndRestriction(*restrictions, negate=negate)
+
         if glob:
             if op != "eq":
                 raise ValueError(f"glob cannot be used with {op} ops")
-            return packages.PackageRestriction(
-                "fullver", values.StrGlobMatch(base.fullver)
+            return finalize(
+                packages.PackageRestriction(
+                    "fullver", values.StrGlobMatch(base.fullver)
+                )
             )
         restrictions = []
         if op.startswith("r"):
@@ -196,17 +204,15 @@ class GlsaDirSet(GenericEquality):
                         f"range {op} version {node.text.strip()} is a guaranteed empty set"
                     )
                 elif op == "rle":  # rle -r0 -> = -r0
-                    return atom_restricts.VersionMatch("=", base.version, negate=negate)
+                    return finalize(atom_restricts.VersionMatch("=", base.version))
                 elif op == "rge":  # rge -r0 -> ~
-                    return atom_restricts.VersionMatch("~", base.version, negate=negate)
+                    return finalize(atom_restricts.VersionMatch("~", base.version))
             # rgt -r0 passes through to regular ~ + >
             restrictions.append(atom_restricts.VersionMatch("~", base.version))
         restrictions.append(
             atom_restricts.VersionMatch(restrict, base.version, rev=base.revision),
         )
-        if slot:
-            restrictions.append(atom_restricts.SlotDep(slot))
-        return packages.AndRestriction(*restrictions, negate=negate)
+        return finalize(*restrictions)
 
 
 def find_vulnerable_repo_pkgs(glsa_src, repo, grouped=False, arch=None):
